@@ -447,6 +447,8 @@ def rule_r4(repo):
     fi = repo.own_method('Decoder', 'process_section')
     cases = [
         ('stop signature damaged', [param('stop_signature', 32, 'bytes', expected=b'7777')], [b'7776'], 'error'),
+        ('stop signature overwritten with octets above 0x7f', [param('stop_signature', 32, 'bytes', expected=b'7777')], [b'77\xff\xfe'], 'error'),
+        ('start signature overwritten with octets above 0x7f', [param('start_signature', 32, 'bytes', expected=b'BUFR'), param('length', 24)], [b'\x80\x81\x82\x83', 100], 'error'),
         ('stop signature intact', [param('stop_signature', 32, 'bytes', expected=b'7777')], [b'7777'], 'ok'),
         ('start signature damaged, later parameter fine', [param('start_signature', 32, 'bytes', expected=b'BUFR'), param('length', 24), param('edition', 8)],
          [b'BUFX', 100, 4], 'error'),
@@ -487,6 +489,68 @@ def rule_r4(repo):
         if got != b'7777':
             rr.fail('SectionParameter.__init__:expected-bytes', sp.where, "the expectation '7777' is stored as %r; the reader returns bytes, so the comparison would never match" % (got,))
     rr.require_floor(7)
+    return rr
+
+def rule_truncated_input(repo, rule='C12.R13'):
+    """Decoder.process folded on concrete octet strings: a 44-octet message cut after every octet 0..43, with and without text in
+    front of the start signature, located by signature or decoded in place.  The sections are scripted (octets per section); the bit
+    reader is bounded by the octets actually handed over and answers a read past the end with the wrapped read error.  Every cut must
+    end in a library error - whatever the entry code does with the string before the first section is read - and the whole message
+    must decode."""
+    from sa.rules.c04 import ProcInterp, PosIO
+    from sa.patheval import Obj, Raise, UnknownMethod
+    from sa.rules.common import callee_qual
+    rr = RuleResult(rule, 'a message cut after any octet is refused with a library error by Decoder.process, the whole message decodes (fold on concrete octet strings)')
+    fi = repo.own_method('Decoder', 'process')
+    sizes = [8, 10, 10, 12, 4]
+    whole = b'BUFR' + (44).to_bytes(3, 'big') + b'\x04' + b'\x00' * 32 + b'7777'
+    n = 0
+
+    class I(ProcInterp):
+        def on_call(self, text, callee, args, kwargs, node, frame):
+            q = callee_qual(callee) or ''
+            if text in ('get_bit_reader',) or q.endswith('get_bit_reader'):
+                if not isinstance(args[0], bytes):
+                    raise AnalysisError('Decoder.process hands %r to the bit reader in a fold on a concrete octet string' % (args[0],))
+                self.avail = len(args[0]) * 8
+                self.used = 0
+                self.handed = args[0]
+                return PosIO(0)
+            if text == 'self.process_section' or q.split('.')[-1] == 'process_section':
+                if self.used + self.cur > self.avail:
+                    raise Raise('BitReadError', node, self.where(node, frame))
+                self.used += self.cur
+                return self.cur
+            return ProcInterp.on_call(self, text, callee, args, kwargs, node, frame)
+
+        def on_subscript(self, base, idx, node, frame):
+            return self.NOT_HANDLED
+    for front in (b'', b'\r\r\nIUSK73 AMMC 182300\r\r\n'):
+        for sig in (b'BUFR', None):
+            if sig is None and front:
+                continue
+            for cut in range(0, len(whole) + 1):
+                data = front + whole[:cut]
+                script = [(Obj('BufrSectionStub', {'end_of_message': k == len(sizes) - 1}), 8 * sz) for k, sz in enumerate(sizes)]
+                it = I(repo, script)
+                res = it.run_function(fi, lambda: {'self': Obj('Decoder', {}), 's': data, 'file_path': 'f', 'start_signature': sig, 'info_only': True,
+                                                   'ignore_value_expectation': False, 'wire_template_data': True}, self_class='Decoder')
+                n += 1
+                what = 'message cut after octet %d%s, %s' % (cut, ' behind a bulletin heading' if front else '', 'located by signature' if sig else 'decoded in place')
+                if len(res) != 1:
+                    raise AnalysisError('Decoder.process forks into %d paths on a concrete octet string (%s)' % (len(res), what))
+                r = res[0]
+                if cut == len(whole):
+                    sb = r.value.fields.get('serialized_bytes') if r.ok and isinstance(r.value, Obj) else None
+                    if not r.ok or sb != whole:
+                        rr.fail('Decoder.process:whole', fi.where, 'the whole message (%s) gives %s' % (what, r.describe() if not r.ok else 'serialized_bytes %r' % (sb,)))
+                elif r.ok:
+                    rr.fail('Decoder.process:cut-accepted', fi.where, '%s: decoded without complaint' % what, witness={'cut': cut})
+                elif not is_lib_error(repo, r.exc.cls):
+                    rr.fail('Decoder.process:cut', fi.where, '%s: %s escapes instead of a library error' % (what, r.exc.cls), witness={'cut': cut, 'octets': repr(data)})
+    rr.instance('%d octet strings: every cut of a 44-octet message x {bare, behind a heading} x {by signature, in place}' % n)
+    rr.extra = {'strings': n}
+    rr.require_floor(1)
     return rr
 
 
@@ -623,6 +687,7 @@ def run(repo, check):
     check.run_rule(rule_r8, repo)
     check.run_rule(rule_stream_commands, repo)
     check.run_rule(rule_descriptor_list, repo)
+    check.run_rule(rule_truncated_input, repo)
     from sa.rules import c17
     from sa.rules.common import share
     share(check, repo, c17.rule_r3, 'C12.R9', 'disabling the signature check for one decode does not disable it for later ones: shared layouts are not written (shared with C17.R3)')
